@@ -2,7 +2,9 @@
 Coq area `Tm` with C04 (checks/c04.py imports the flow from here)."""
 import gv
 
+REQ_PROPS = ["GV.Props.Props_C03"]
 REQ_RUN = ["GV.Tm.Run"]
+BINS = ["c03"]
 
 # smaller evaluation shards than the default: the terms are long op lists with read-backs and
 # the machine has many cores (same function, same results; only the batching differs)
